@@ -45,7 +45,7 @@ def rand_set(rng, uidmode: bool, nmax: int = 5) -> str:
     return f'{base + rng.randint(1, nmax)},{base + rng.randint(1, nmax)}'
 
 
-def rand_cmd(rng, weights=None, recent_flags: bool = False) -> tuple:
+def rand_cmd(rng, weights=None, recent_flags: bool = False, two_boxes: bool = False) -> tuple:
     w = weights or {}
     store_flags = FLAGS + (('\\Recent', '\\Recent') if recent_flags else ())
     app_flags = [(), (), ('\\Seen',), ('\\Deleted',)] + (
@@ -73,10 +73,15 @@ def rand_cmd(rng, weights=None, recent_flags: bool = False) -> tuple:
         return ('append', rng.choice(['INBOX', 'INBOX', 'Box']), rng.choice([1, 1, 2]),
                 rng.choice(app_flags))
     if k in ('copy', 'move'):
+        if two_boxes:
+            return (k, um, rand_set(rng, um), rng.choice(['Box', 'INBOX']))
         return (k, um, rand_set(rng, um), rng.choice(['Box', 'Box', 'INBOX', 'Box2']))
     if k == 'search':
         return ('search', um, rng.choice(['ALL', 'DELETED', 'UNSEEN', '1:*']))
     if k in ('select', 'examine'):
+        if two_boxes:
+            # both mailboxes alike, and now and then one that does not exist (SELECT fails)
+            return (k, rng.choice(['INBOX', 'INBOX', 'INBOX', 'Box', 'Box', 'Box', 'Nope']))
         return (k, rng.choice(['INBOX', 'INBOX', 'INBOX', 'Box']))
     if k == 'status':
         return ('status', rng.choice(['INBOX', 'Box', 'Box2']))
@@ -93,8 +98,8 @@ def rand_cmd(rng, weights=None, recent_flags: bool = False) -> tuple:
 def random_schedule(rng, nsess: int, ncmds: int, idle: bool = False,
                     weights=None, ro_prob: float = 0.15, idle_prob: float = 0.25,
                     gate_idlers: bool = False, recent_flags: bool = False,
-                    fetch_after_select: bool = False, initial_select: float = 1.0
-                    ) -> tuple[list, list]:
+                    fetch_after_select: bool = False, initial_select: float = 1.0,
+                    two_boxes: bool = False) -> tuple[list, list]:
     """A schedule in driver actions, decided step by step against the REAL run
     (the enabled actions depend on where the sessions are parked), so this
     returns a generator-like closure result: (sessions, driver)"""
@@ -146,7 +151,7 @@ def random_schedule(rng, nsess: int, ncmds: int, idle: bool = False,
                     need_fetch.discard(s)
                     cmd = ('fetch', False, '1:*', False)
                 else:
-                    cmd = rand_cmd(rng, weights, recent_flags)
+                    cmd = rand_cmd(rng, weights, recent_flags, two_boxes)
                     if run.server_view(s) is None and cmd[0] not in (
                             'select', 'examine', 'append', 'noop'):
                         cmd = rng.choice([('select', 'INBOX'), ('examine', 'INBOX'),
@@ -263,6 +268,8 @@ def main(prop: str, tier: str) -> int:
 
     # 3. code -> spec
     nrand = 500 if quick else 6000
+    if prop == 'C17':
+        nrand = 900 if quick else 9000
     for i in range(nrand):
         nsess = 2 if rng.random() < 0.7 else 3
         idle = prop == 'C16' or rng.random() < 0.25
@@ -279,9 +286,9 @@ def main(prop: str, tier: str) -> int:
                          'fetch': 3, 'search': 0, 'check': 0, 'uidexpunge': 3})
         elif prop == 'C17':
             sessions, drive = random_schedule(
-                rng, 3 if rng.random() < 0.5 else 2, rng.randint(4, 10), idle=False,
+                rng, 3 if rng.random() < 0.6 else 2, rng.randint(4, 11), idle=False,
                 ro_prob=0.35, recent_flags=True, fetch_after_select=True,
-                initial_select=0.5,
+                initial_select=0.5, two_boxes=True,
                 weights={'select': 14, 'examine': 10, 'close': 8, 'append': 22, 'copy': 12,
                          'fetch': 6, 'store': 10, 'expunge': 3, 'move': 5, 'search': 0,
                          'uidexpunge': 0, 'check': 0})
@@ -299,6 +306,10 @@ def main(prop: str, tier: str) -> int:
             run.notes.setdefault('harness_errors', []).append(e)
         traces.append(sr.events)
         meta.append({'kind': 'random-schedule', 'schedule': log})
+
+    # 3b. C17: life-cycle histories from the reference model RecentModel.tla (every edge)
+    if prop == 'C17':
+        lifecycle_part(run, rng, quick, traces, meta)
 
     # 4. TLC judges
     obs = OBSERVER.get(prop, 'Trace_Sync')
@@ -324,6 +335,68 @@ def main(prop: str, tier: str) -> int:
     for m in (meta[0], meta[len(behs)] if len(meta) > len(behs) else meta[-1]):
         run.sample(m)
     return run.finish()
+
+
+def lifecycle_part(run, rng, quick, traces, meta) -> None:
+    graph, res = tlc.dump_graph('RecentModel.tla', 'RecentModel_2.cfg' if quick else 'RecentModel_3.cfg',
+                                workers=8)
+    run.add_model(res, 'RecentModel')
+    if not res.ok:
+        run.machinery(f'RecentModel fails: {res.violated or res.error}')
+        return
+    paths = tlc.edge_cover(graph, max_len=8)
+    if quick and len(paths) > 1100:
+        rng.shuffle(paths)
+        paths = paths[:1100]
+    run.notes['lifecycle'] = {'graph_nodes': len(graph.nodes), 'graph_edges': graph.n_edges,
+                              'paths_replayed': len(paths)}
+    for init, path in paths:
+        st0 = graph.nodes[init]
+        sessions = sorted(str(x) for x in st0['sel'])
+        claimed = {m for m in ('INBOX', 'Box') if not st0['unclaimed'][m]}
+        sr = SyncRun(init_flags=((), ()), sessions=sessions + ['d'], controlled=False,
+                     claim_recent=claimed, box_msgs={'Box': 1})
+        log = []
+
+        def cmd(s, c):
+            if sr.can_issue(s):
+                sr.issue(s, c)
+                sr.finish(s)
+                log.append((s, c))
+        try:
+            for label, _dst in path:
+                name, a = tlc.parse_label(label)
+                s = str(a[0])
+                if name == 'Select':
+                    cmd(s, (('select' if a[2] else 'examine'), str(a[1])))
+                    cmd(s, ('fetch', False, '1:*', False))
+                elif name == 'SelectFail':
+                    cmd(s, ('select', 'Nope'))
+                elif name == 'Close':
+                    cmd(s, ('close',))
+                elif name == 'Append':
+                    cmd(s, ('append', str(a[1]), 1, ()))
+                elif name == 'Copy':
+                    cmd(s, ('copy', False, '*', str(a[1])))
+                elif name == 'Move':
+                    cmd(s, ('move', False, '*', str(a[1])))
+                elif name == 'Noop':
+                    cmd(s, ('noop',))
+                elif name == 'StoreRecent':
+                    cmd(s, ('store', False, '1:*', rng.choice('+-'), False, ('\\Recent',)))
+                elif name == 'Status':
+                    cmd(s, ('status', str(a[1])))
+            # everybody looks at what it has; then a fresh session selects each mailbox read-write
+            for s in sessions:
+                if sr.server_view(s) is not None:
+                    cmd(s, ('fetch', False, '1:*', False))
+            for m in ('INBOX', 'Box'):
+                cmd('d', ('select', m))
+                cmd('d', ('fetch', False, '1:*', False))
+        finally:
+            sr.close()
+        traces.append(sr.events)
+        meta.append({'kind': 'lifecycle', 'actions': [p[0] for p in path], 'commands': log})
 
 
 def classify(prop, clause, events, line, detail=''):
